@@ -23,6 +23,8 @@
 //     gives the same answer - the answer of a call does not depend on the calls made before it;
 //   - canonical: what the validating Decode accepted re-encodes with validation to exactly b[:n];
 //   - aliasing: Decode does not change its input;
+//   - every session ends with a burst of 4..8 Encode calls running at the same time on the shared API, judged by the same
+//     oracles (the thorough tier builds this part with the race detector);
 //   - layout (package refo): every `enc` answer against the reference encoder, the requests of the session up to it as the
 //     failing input (state that the twin shares with the session - package-level variables - is invisible to `history`).
 package main
@@ -30,11 +32,13 @@ package main
 import (
 	"bytes"
 	"context"
+	"flag"
 	"fmt"
 	"reflect"
 	"sort"
 	"strconv"
 	"strings"
+	"sync"
 
 	"verifharness/c03/refo"
 	"verifharness/hx"
@@ -337,6 +341,7 @@ type sess struct {
 	calls    int
 	nLines   int
 	mapCalls map[int]bool // pooled rules objects a map site has used so far
+	pending  *string      // the answer of the next enc request, computed beforehand by a concurrent burst
 	reported map[string]bool
 }
 
@@ -475,11 +480,17 @@ func (x *sess) exec(op string) string {
 		}
 		val := f[1] == "v"
 		idx := x.curIdx
-		ans := encodeOn(x.u, idx, f[2], val)
+		var ans string
+		call := "Encode"
+		if x.pending != nil {
+			ans, x.pending, call = *x.pending, nil, "Encode(concurrent)"
+		} else {
+			ans = encodeOn(x.u, idx, f[2], val)
+		}
 		if ans == "bad-op" {
 			return ans
 		}
-		x.afterCall("Encode", op, ans, func(u *universe) string { return encodeOn(u, idx, f[2], val) })
+		x.afterCall(call, op, ans, func(u *universe) string { return encodeOn(u, idx, f[2], val) })
 
 		return ans
 	case "dec":
@@ -604,8 +615,52 @@ func genSession(r *hx.Run, rng *hx.Rng, sub uint64) {
 			}
 		}
 	}
+	if x.nLines < 1400 {
+		x.burst(rng, vg, gen)
+	}
 	if len(r.Samples) < r.MaxSamples {
 		r.Sample(r.CaseLines())
+	}
+}
+
+// burst: several Encode calls on the long-lived API at the same time (real users share one API between goroutines); the
+// requests are then emitted in a fixed order with the answers the concurrent calls gave, and judged like every other call
+// (what a call answers depends neither on the calls before it nor on the calls running beside it).  A replay executes
+// them one after the other.
+func (x *sess) burst(rng *hx.Rng, vg *serixgen.VGen, gen *universe) {
+	type job struct {
+		k    int
+		text string
+		fl   string
+		ans  string
+	}
+	jobs := make([]job, rng.Range(4, 8))
+	for i := range jobs {
+		k := rng.Intn(len(x.u.sites))
+		if i%2 == 0 {
+			for tries := 0; tries < 20 && !x.u.sites[k].isMap; tries++ {
+				k = rng.Intn(len(x.u.sites))
+			}
+		}
+		v := vg.Gen(gen.sites[k].schema)
+		jobs[i] = job{k: k, text: serixgen.ValText(x.u.sites[k].schema, v, serixgen.TextOpts{}), fl: flagName(rng.Chance(4, 5))}
+	}
+	var wg sync.WaitGroup
+	for i := range jobs {
+		wg.Add(1)
+		go func(j *job) {
+			defer wg.Done()
+			j.ans = encodeOn(x.u, j.k, j.text, j.fl == "v")
+		}(&jobs[i])
+	}
+	wg.Wait()
+	x.r.Count("live:concurrent-burst")
+	for i := range jobs {
+		x.line(fmt.Sprintf("type sel %d", jobs[i].k))
+		x.line("def -")
+		x.pending = &jobs[i].ans
+		x.line("enc " + jobs[i].fl + " " + jobs[i].text)
+		x.pending = nil
 	}
 }
 
@@ -616,7 +671,15 @@ var rec *refo.Rec
 const driverPath = "../lean/.lake/build/bin/drv_c03"
 
 func main() {
+	// --racepart: the run of the check's fourth part, which the thorough tier builds with the race detector (about 8 times
+	// slower): other sessions than the main run, fewer of them
+	racePart := flag.Bool("racepart", false, "sessions for the race-detector build")
 	r := hx.Start()
+	sessions := 160 * r.Scale
+	if *racePart {
+		r.Rng = hx.NewRng(r.Seed ^ 0x72616365)
+		sessions = 20 * r.Scale
+	}
 	r.Rule = "one case = one long-lived API whose registered types and call sites share *ArrayRules / TypeSettings objects; 20..60 hops between call sites, per hop " +
 		"1..2 values encoded, the encoding and a mutated input decoded; non-trivial = Encode succeeded with a non-empty encoding"
 	r.MaxSamples = 1
@@ -639,7 +702,7 @@ func main() {
 			y.line(l)
 		}
 	}
-	for i := 0; i < 160*r.Scale; i++ {
+	for i := 0; i < sessions; i++ {
 		rng, sub := r.Rng.Fork()
 		genSession(r, rng, sub)
 	}
